@@ -21,7 +21,7 @@ S = lambda a: {"agg": a, "kind": "stat", "subj": "-"}    # noqa: E731
 STRICT_INVS = ["NoDupRows", "HeaderFirstOnce", "RowsAreSubjects", "SnapOnlyComplete", "ExactlyOnePerSubject",
                "NoCallFailed", "SiblingsIndependent"]
 OBS_INVS = ["NoDupRows", "HeaderFirstOnce", "RowsAreSubjects", "RowsAppendOnly", "ExactlyOnePerSubject", "SnapOnlyComplete",
-            "NoCallFailed"]
+            "NoCallFailed", "ForeignRefused", "CtorSucceeds"]
 
 
 # --------------------------------------------------------------------------------------
@@ -420,6 +420,8 @@ C17_SCENARIOS = [
     scn("two-rows", ["A"], [E("A", "a"), E("A", "b")], init="rows", prior=["a"]),
     scn("three-noexit", ["A"], [E("A", "a"), E("A", "b"), E("A", "c")], init="absent", normal_exit=False),
 ]
+# beyond the listed properties: an output file with another configuration's header must be refused untouched
+FOREIGN_SCENARIO = scn("foreign-header", ["A"], [E("A", "a"), E("A", "b")], init="foreign", prior=["q"])
 SIBLING_SCENARIOS = [
     scn("siblings-same-dir", ["A", "B"], [E("A", "a"), E("B", "a"), E("A", "b")], same_dir=True),
     scn("siblings-other-dir", ["A", "B"], [E("A", "a"), E("B", "a"), E("B", "b")], same_dir=False),
@@ -430,7 +432,7 @@ SIBLING_SCENARIOS = [
     scn("siblings-names-prefix", ["A", "B"], [E("A", "a"), E("B", "a")], out_names={"A": "run.tsv", "B": "run_panoptica_aggregator_tmp.tsv"}),
     scn("siblings-names-dots", ["A", "B"], [E("A", "a"), E("B", "a")], out_names={"A": "res.v1.tsv", "B": "res.v2.tsv"}),
 ]
-MC17 = ["MC_Agg_c17_absent.cfg", "MC_Agg_c17_empty.cfg", "MC_Agg_c17_header.cfg", "MC_Agg_c17_rows.cfg", "MC_Agg_c17_three.cfg",
+MC17 = ["MC_Agg_c17_foreign.cfg", "MC_Agg_c17_absent.cfg", "MC_Agg_c17_empty.cfg", "MC_Agg_c17_header.cfg", "MC_Agg_c17_rows.cfg", "MC_Agg_c17_three.cfg",
         "MC_Agg_c17_sibling.cfg"]
 
 
@@ -479,6 +481,7 @@ def check_C17(tier: str, v: Verdict):
                 ss = sessions_from_behaviour(b)
                 jobs.append((sc, [{"policy": s["policy"], "kill_at": s["kill_at"]} for s in ss], str(root / f"b{len(jobs)}"),
                              f"tlc-crash-behaviour-{bi}"))
+        jobs.append((FOREIGN_SCENARIO, [{"policy": ("seq",), "kill_at": None}, {"policy": ("seq",), "kill_at": None}], str(root / "foreign"), "foreign-header"))
         results += run_histories(jobs)
         validate_histories(v, results, "C17")
         v.cov["evaluations"] = len(results)
